@@ -377,7 +377,7 @@ def r5_server_context(ck, cx):
                 if ev.kind == 'cond' and 'single' not in U(ev._sub):
                     # interval conditions on the unit id (locals substituted: a renamed / remapped local still
                     # denotes the parameter on the multi-unit path)
-                    cs += constraints(ev._sub, ev.a, nz)
+                    cs += constraints(_inline_class_ranges(cx, c, ev._sub), ev.a, nz)
             got = _canon_set(cs)
             lo, hi = UNIT_ID_RANGE
             exp = {cstr(('ge', P(nz, '%s - %d' % (sl, lo)))), cstr(('ge', P(nz, '%d - %s' % (hi, sl))))}
@@ -415,6 +415,28 @@ def r5_server_context(ck, cx):
                   detail='single-init ' + (U(v)[:60] if v is not None else 'unset'), loc=cx.floc(i))
     ck.ob('R5', i.qn, 'constructor distinguishes single mode', seen_single > 0, detail='no-single-branch-in-init', loc=cx.floc(i))
 
+
+
+def _inline_class_ranges(cx, cls, expr):
+    """`x in self.NAME` / `x in Cls.NAME` where NAME is bound once in the class body to range(...) / a tuple of constants: the
+    class-level value is substituted, so that a named id range means what the inline range means"""
+    import copy
+
+    class T(ast.NodeTransformer):
+        def visit_Attribute(self, n):
+            self.generic_visit(n)
+            if isinstance(n.value, ast.Name) and n.value.id in ('self', 'cls', cls.name) and isinstance(n.ctx, ast.Load):
+                k, v = cx.idx.find_attr(cls, n.attr)
+                if k is not None and isinstance(v, ast.Call) and isinstance(v.func, ast.Name) and v.func.id == 'range':
+                    stores = [x for kk in cx.idx.mro(cls) for m in kk.methods.values() for x in ast.walk(m.node)
+                              if isinstance(x, ast.Attribute) and x.attr == n.attr and isinstance(x.ctx, ast.Store)]
+                    if not stores:
+                        return copy.deepcopy(v)
+            return n
+    try:
+        return T().visit(copy.deepcopy(expr))
+    except Exception:
+        return expr
 
 def r6_table_isolation(ck, cx, rule='R6'):
     """Storage isolation: the four tables of a slave context, and the tables of different contexts, are distinct
